@@ -16,9 +16,9 @@ import MirModel.Scores
     exceed 1); two empty prototypes reach `np.max` of an empty array (`ValueError`);
   * `occurrence_FPR` indexes the occurrence matrix with `np.ix_(rel_idx[:,0], rel_idx[:,1])`, i.e. rows and
     columns are repeated once per relevant pair;
-  * `first_n_*` return the 3-tuple `(0., 0., 0.)` on empty input;
-  * `evaluate` forces `kwargs["thresh"]` although the parameter of `occurrence_FPR` is `thres`: both
-    occurrence entries are computed with the caller's `thres` (default 0.75).
+  * `evaluate` forces `kwargs["thres"]` to 0.5 and then 0.75 for the two occurrence entries, so a `thres`
+    passed by the caller is overwritten (repaired in 84ce008; before, the misspelt key `thresh` was dropped).
+  (`first_n_*` return the scalar 0.0 on empty input since e3a7cc5.)
 -/
 namespace Mir
 namespace Pattern
@@ -248,12 +248,6 @@ def threeLayerFPR (ref est : Pats) : Py (Rat × Rat × Rat) := do
 
 /-! ### first-n scores -/
 
-/-- a documented scalar that the code sometimes returns as a 3-tuple -/
-inductive Out where
-  | scalar (x : Rat)
-  | triple (a b c : Rat)
-  deriving DecidableEq, Repr
-
 /-- `xs[: k]` for a Python int `k` -/
 def pySliceTo {α : Type} (xs : List α) (k : Int) : List α :=
   if 0 ≤ k then xs.take k.toNat else xs.take (xs.length - (-k).toNat)
@@ -264,37 +258,38 @@ def firstN (est : Pats) (n : Int) : Pats :=
 
 def defaultN : Int := 5
 
-def firstNThreeLayerP (ref est : Pats) (n : Int := defaultN) : Py Out := do
+def firstNThreeLayerP (ref est : Pats) (n : Int := defaultN) : Py Rat := do
   validate ref est
-  if isZero ref est then return .triple 0 0 0
+  if isZero ref est then return 0
   let fpr ← threeLayerFPR ref (firstN est n)
-  return .scalar fpr.2.1
+  return fpr.2.1
 
-def firstNTargetProportionR (ref est : Pats) (n : Int := defaultN) : Py Out := do
+def firstNTargetProportionR (ref est : Pats) (n : Int := defaultN) : Py Rat := do
   validate ref est
-  if isZero ref est then return .triple 0 0 0
+  if isZero ref est then return 0
   let fpr ← establishmentFPR ref (firstN est n)
-  return .scalar fpr.2.2
+  return fpr.2.2
 
 /-! ### evaluate -/
 
 /-- `evaluate(ref, est, **kwargs)` for the keyword arguments `tol`, `thres`, `similarity_metric`, `n`
-    (`none` = not passed).  `util.filter_kwargs` hands each metric only the keywords it declares; the forced
-    `kwargs["thresh"]` matches no parameter of `occurrence_FPR`, so it never arrives. -/
-def evaluate (ref est : Pats) (tol : Option Rat) (thres : Option Rat) (metric : Option String)
-    (n : Option Int) : Py (List (String × Out)) := do
+    (`none` = not passed).  `util.filter_kwargs` hands each metric only the keywords it declares.  Before the
+    occurrence scores `evaluate` assigns `kwargs["thres"] = 0.5`, then `= 0.75`: the two occurrence entries use
+    exactly these thresholds and a caller's `thres` is overwritten (it reaches no metric). -/
+def evaluate (ref est : Pats) (tol : Option Rat) (_thres : Option Rat) (metric : Option String)
+    (n : Option Int) : Py (List (String × Rat)) := do
   let s ← standardFPR ref est (tol.getD defaultTol)
   let e ← establishmentFPR ref est (metric.getD cardName)
-  let o5 ← occurrenceFPR ref est (thres.getD defaultThres) (metric.getD cardName)
-  let o75 ← occurrenceFPR ref est (thres.getD defaultThres) (metric.getD cardName)
+  let o5 ← occurrenceFPR ref est (1 / 2) (metric.getD cardName)
+  let o75 ← occurrenceFPR ref est (3 / 4) (metric.getD cardName)
   let t ← threeLayerFPR ref est
   let ffp ← firstNThreeLayerP ref est (n.getD defaultN)
   let fftp ← firstNTargetProportionR ref est (n.getD defaultN)
-  return [("F", .scalar s.1), ("P", .scalar s.2.1), ("R", .scalar s.2.2),
-          ("F_est", .scalar e.1), ("P_est", .scalar e.2.1), ("R_est", .scalar e.2.2),
-          ("F_occ.5", .scalar o5.1), ("P_occ.5", .scalar o5.2.1), ("R_occ.5", .scalar o5.2.2),
-          ("F_occ.75", .scalar o75.1), ("P_occ.75", .scalar o75.2.1), ("R_occ.75", .scalar o75.2.2),
-          ("F_3", .scalar t.1), ("P_3", .scalar t.2.1), ("R_3", .scalar t.2.2),
+  return [("F", s.1), ("P", s.2.1), ("R", s.2.2),
+          ("F_est", e.1), ("P_est", e.2.1), ("R_est", e.2.2),
+          ("F_occ.5", o5.1), ("P_occ.5", o5.2.1), ("R_occ.5", o5.2.2),
+          ("F_occ.75", o75.1), ("P_occ.75", o75.2.1), ("R_occ.75", o75.2.2),
+          ("F_3", t.1), ("P_3", t.2.1), ("R_3", t.2.2),
           ("FFP", ffp), ("FFTP_est", fftp)]
 
 /-! ### Layer S: the documented definitions (Collins, MIREX 2013) -/
@@ -390,10 +385,6 @@ def parsePat? (v : Val) : Option Pat := do (← v.asList?).mapM parseOcc?
 
 def ofTriple (t : Rat × Rat × Rat) : Val := .list [.rat t.1, .rat t.2.1, .rat t.2.2]
 
-def ofOut : Out → Val
-  | .scalar x => .rat x
-  | .triple a b c => .list [.rat a, .rat b, .rat c]
-
 def ofMatrix (m : List (List Rat)) : Val := .list (m.map Val.ofRats)
 
 /-- run a metric on raw input: malformed points are `validate`'s `ValueError` -/
@@ -433,14 +424,14 @@ def handler : Handler := fun fn args =>
   | "pattern.three_layer_FPR", [r, e] => withPats r e fun r e => (threeLayerFPR r e).map ofTriple
   | "pattern.first_n_three_layer_P", [r, e, n] => do
       let n ← asOptInt? n
-      withPats r e fun r e => (firstNThreeLayerP r e (n.getD defaultN)).map ofOut
+      withPats r e fun r e => (firstNThreeLayerP r e (n.getD defaultN)).map .rat
   | "pattern.first_n_target_proportion_R", [r, e, n] => do
       let n ← asOptInt? n
-      withPats r e fun r e => (firstNTargetProportionR r e (n.getD defaultN)).map ofOut
+      withPats r e fun r e => (firstNTargetProportionR r e (n.getD defaultN)).map .rat
   | "pattern.evaluate", [r, e, tol, th, m, n] => do
       let tol ← tol.asOptRat?; let th ← th.asOptRat?; let m ← asOptStr? m; let n ← asOptInt? n
       withPats r e fun r e =>
-        (evaluate r e tol th m n).map fun kv => .list (kv.map fun (k, v) => .list [.str k, ofOut v])
+        (evaluate r e tol th m n).map fun kv => .list (kv.map fun (k, v) => .list [.str k, .rat v])
   -- the documented definitions, executable (used to cross-check the C04 statements on concrete inputs)
   | "pattern.spec.establishment", [r, e] => withPats r e fun r e => .ok (ofTriple (Spec.establishment r e))
   | "pattern.spec.occurrence", [r, e, th] => do
